@@ -176,3 +176,8 @@ def run(chk):
         chk.ob('C18-S', '%s detects a legacy profile' % fq, facts['legacy'] and facts.get('legacy_raise', False),
                'this entry point subscripts the profile but never tests the legacy tag \'mp\' (its sibling does): '
                'a legacy profile is used as if it were a structure', fi.loc, key='C18-S|%s|legacy' % fq)
+
+    chk.rule('C18-G', 'profile errors (MessageProfileNotFound, LegacyMessageProfile) are raised under the same conditions as in the reviewed tree')
+    from . import guardrules
+    ng_ = guardrules.check(chk, c, 'C18-G', ['core.Message.__init__', 'parser.parse_message', 'core.Message.parse_children'])
+    chk.floor('refusal predicates compared (C18-G)', ng_, 1)
